@@ -269,6 +269,24 @@ def run_verus_unit(u, scratch, tier, extra_flags=()):
             obligation=f"{u['name']}::{fn}::{lab}", labels=labels, owners=owners, fn=fn, hint_only=hint_only,
             src=srcloc, message=msg, clause=clause_txt,
             rendered=e.get("rendered", "")[:6000]))
+    # same verification condition as on the unchanged tree?  (item_hashes.json, tools/item_hashes.py)
+    if res["failures"]:
+        base = _item_hashes().get(u["name"], {})
+        cur = {it["item"]: it["sha256"] for it in built.report if isinstance(it, dict) and it.get("sha256")}
+        changed = [it for it in set(cur) | set(base) if cur.get(it) != base.get(it)]
+        for f in res["failures"]:
+            F = f.get("fn")
+            if not base or not F or F not in base or cur.get(F) != base[F]:
+                continue
+            ftxt = "\n".join(ln_ for (a, b, fn_, _p, _s) in built.fn_ranges if fn_ == F for ln_ in gen_lines[a - 1:b])
+            toks_ = set(re.findall(r"[A-Za-z_]\w*", ftxt))
+            def _names(item):
+                # `struct X` / `enum X` / `const X` ... -> X ; `Type::method#block` -> method (and Type)
+                parts = re.split(r"[\s:#<>]+", item)
+                return {p_ for p_ in parts if re.fullmatch(r"[A-Za-z_]\w*", p_ or "") and p_ not in ("struct", "enum", "const", "type", "impl", "as", "for", "static", "trait", "implblock")}
+            relevant = [it for it in changed if _names(it) & toks_]
+            if not relevant:
+                f["same_vc"] = True
     # obligations: per function one "body" obligation + labelled clauses
     failed_fns = {f["fn"] for f in res["failures"]}
     by_fn_clauses = {}
@@ -491,6 +509,18 @@ def thorough_extras(prop, vunits, scratch_root):
 
 
 _HINT_DEPS = None
+_ITEM_HASHES = None
+
+
+def _item_hashes():
+    global _ITEM_HASHES
+    if _ITEM_HASHES is None:
+        try:
+            _ITEM_HASHES = json.load(open(os.path.join(VERIF, "item_hashes.json")))
+        except Exception:
+            _ITEM_HASHES = {}
+    return _ITEM_HASHES
+
 
 
 def explained_by_lost_hint(f, r):
@@ -570,6 +600,9 @@ def finish(prop, args, seed, t0, results):
             hint_fail.append((f, r))
         else:
             why = explained_by_lost_hint(f, r)
+            if not why and f.get("same_vc"):
+                why = ("the function and every extracted item it names are textually unchanged: this is the verification condition "
+                       "that is discharged on the unchanged tree (solver instability, not the change under test)")
             if why:
                 unfit.append((f, r, why))
             else:
@@ -577,7 +610,7 @@ def finish(prop, args, seed, t0, results):
     if unfit and not violations:
         # the obligation fails, but a proof hint its proof needs on the unchanged tree could not be placed on this code:
         # the proof script does not fit the changed function, which says nothing about the property (undecided)
-        infra.append("obligation(s) fail in a function whose proof hints could not be placed (undecided): "
+        infra.append("obligation(s) fail for a reason other than the code under test (undecided): "
                      + "; ".join(f"{f['obligation']} [{why}]" for f, _, why in unfit[:4]))
     if hint_fail and not violations:
         # only proof-script assertions fail, no contract clause and no obligation of the code itself: undecided
